@@ -46,7 +46,7 @@ let emit s = Buffer.add_string out s; Buffer.add_char out '\n';
   if Buffer.length out > (1 lsl 20) then (print_string (Buffer.contents out); Buffer.clear out)
 
 let nstates = ref 0 and ntrans = ref 0 and nguard_fail = ref 0 and ncalls = ref 0 and nfinal = ref 0
-and ndead = ref 0 and maxq = ref 0 and npipe = ref 0 and nerr = ref 0
+and ndead = ref 0 and maxq = ref 0 and npipe = ref 0 and nerr = ref 0 and ninitbad = ref 0 and ntrunc = ref 0
 
 (* perform transition l from g: emit the C command and the expected output; returns g' *)
 let do_step (g : gstate) (l : label) (g' : gstate) =
@@ -80,6 +80,7 @@ let explore n psz relax nthreads maxstates et =
   emit (Printf.sprintf "C INIT %d %d %d %s" n psz relax (ints et));
   emit ("E RS " ^ String.concat " " (List.map (fun (a, b) -> Printf.sprintf "%d:%d" (int_of_z a) (int_of_z b)) (relax_snode (z_of_int n) et (z_of_int relax))));
   emit ("E " ^ state_line s0);
+  if not (check_init s0) then incr ninitbad;
   let g0 = ginit s0 (nat_of_int nthreads) in
   let visited = Hashtbl.create 4096 in
   let labs = labels nthreads in
@@ -109,7 +110,8 @@ let explore n psz relax nthreads maxstates et =
         end
       end) enabled
   in
-  dfs g0
+  dfs g0;
+  if !local >= maxstates then incr ntrunc
 
 (* simple LCG so that runs are reproducible from the seed *)
 let rng = ref 1
@@ -121,6 +123,7 @@ let walk n psz relax nthreads seed steps et =
   emit (Printf.sprintf "C INIT %d %d %d %s" n psz relax (ints et));
   emit ("E RS " ^ String.concat " " (List.map (fun (a, b) -> Printf.sprintf "%d:%d" (int_of_z a) (int_of_z b)) (relax_snode (z_of_int n) et (z_of_int relax))));
   emit ("E " ^ state_line s0);
+  if not (check_init s0) then incr ninitbad;
   let labs = labels nthreads in
   let g = ref (ginit s0 (nat_of_int nthreads)) in
   (try
@@ -149,6 +152,6 @@ let () =
       | _ -> ()
     done
   with End_of_file -> ());
-  emit (Printf.sprintf "S states %d transitions %d calls %d guard_fail %d final %d dead %d maxqtail %d pipelined %d err %d"
-          !nstates !ntrans !ncalls !nguard_fail !nfinal !ndead !maxq !npipe !nerr);
+  emit (Printf.sprintf "S states %d transitions %d calls %d guard_fail %d final %d dead %d maxqtail %d pipelined %d err %d init_bad %d truncated %d"
+          !nstates !ntrans !ncalls !nguard_fail !nfinal !ndead !maxq !npipe !nerr !ninitbad !ntrunc);
   print_string (Buffer.contents out)
